@@ -20,7 +20,10 @@ import (
 	"verif/internal/hx"
 )
 
-const pgMaxDeclared = 0x7fffffff // declared lengths above this are clamped by the harness (memory safety of the harness)
+// pgMaxDeclared: declared lengths above this are clamped by the harness before the decoder sees them (memory
+// safety and speed of the harness itself: the pinned readers allocate by the declared length, and 96 MiB
+// already exceeds the bound; the readers accept any 32-bit value).
+const pgMaxDeclared = 0x06000000
 
 func pgEnc(m interface{ Encode([]byte) ([]byte, error) }) []byte {
 	b, err := m.Encode(nil)
@@ -181,7 +184,7 @@ func pgCompletePacket(data []byte) bool {
 	return l >= 4 && uint64(l)+1 <= uint64(len(data))
 }
 
-func pgInspect(vs *hx.Vs, name string, p *postgresql.PacketHandler) {
+func pgInspect(vs *hx.Vs, name string, p *postgresql.PacketHandler, client bool) {
 	_ = p.IsDataRow() || p.IsRowDescription() || p.IsParameterDescription() || p.IsReadyForQuery() || p.IsCommandComplete() || p.IsErrorResponse() ||
 		p.IsEmptyQueryResponse() || p.IsNoData() || p.IsPortalSuspended() || p.IsParseComplete() || p.IsBindComplete() || p.IsSSLRequestAllowed() || p.IsSSLRequestDeny()
 	if p.IsRowDescription() {
@@ -189,6 +192,10 @@ func pgInspect(vs *hx.Vs, name string, p *postgresql.PacketHandler) {
 	}
 	if p.IsParameterDescription() {
 		_, _ = p.GetParameterDescriptionData()
+	}
+	if !client {
+		_, _ = p.Marshal()
+		return
 	}
 	if p.IsSimpleQuery() {
 		q, err := p.GetSimpleQuery()
@@ -234,7 +241,7 @@ func targetPgReadDb(data []byte) (vs hx.Vs) {
 			if err := p.ReadPacket(); err != nil {
 				return
 			}
-			pgInspect(&vs, "pg.read.db", p)
+			pgInspect(&vs, "pg.read.db", p, false)
 		}
 	})
 	return vs
@@ -266,7 +273,7 @@ func targetPgReadClient(data []byte) (vs hx.Vs) {
 				return
 			}
 			_ = p.IsAlreadyStarted()
-			pgInspect(&vs, "pg.read.client", p)
+			pgInspect(&vs, "pg.read.client", p, true)
 		}
 	})
 	return vs
@@ -293,7 +300,7 @@ func targetPgParse(data []byte) (vs hx.Vs) {
 }
 
 func targetPgBind(data []byte) (vs hx.Vs) {
-	orig := append([]byte(nil), data...)
+	orig := clone(data)
 	hx.Guard(&vs, "pg.bind", func() {
 		b, err := postgresql.NewBindPacket(data)
 		if err != nil || b == nil {
@@ -337,7 +344,7 @@ func targetPgExecute(data []byte) (vs hx.Vs) {
 func targetPgSession(data []byte) (vs hx.Vs) {
 	sqlparser.SetDefaultDialect(pgdialect.NewPostgreSQLDialect())
 	client, db := splitSession(data)
-	client, db = append([]byte(nil), client...), append([]byte(nil), db...)
+	client, db = clone(client), clone(db)
 	if rest := pgClampStartup(client); rest != nil {
 		pgClampGeneral(rest)
 	}
@@ -385,9 +392,13 @@ func pgSessionSeeds() [][]byte {
 // pgHostile builds a packet header with a hostile declared length at the structural position.
 func pgHostile(client bool) func(t *rapid.T, seeds [][]byte) []byte {
 	return func(t *rapid.T, seeds [][]byte) []byte {
-		lens := []uint32{0, 1, 2, 3, 4, 5, 6, 7, 8, 9, 0x7f, 0xff, 0x100, 0xffff, 0x10000, 0x4000004, 0x8000000, 0x7fffffff, 0x80000000, 0xfffffffe, 0xffffffff}
+		lens := []uint32{0, 1, 2, 3, 4, 4, 4, 5, 5, 6, 6, 7, 8, 9, 0x7f, 0xff, 0x100, 0xffff, 0x10000, 0x4000004, 0x8000000, 0x7fffffff, 0x80000000, 0xfffffffe, 0xffffffff}
 		l := rapid.SampledFrom(lens).Draw(t, "len")
 		tail := rapid.SliceOfN(rapid.Byte(), 0, 12).Draw(t, "tail")
+		if rapid.Bool().Draw(t, "exact") && l >= 4 && l < 0x100 {
+			// payload of exactly the declared size (zeros or bytes)
+			tail = rapid.SliceOfN(rapid.SampledFrom([]byte{0, 0, 0, 1, 'a', 0xff}), int(l-4), int(l-4)).Draw(t, "payload")
+		}
 		var out []byte
 		if client {
 			started := byte(rapid.IntRange(0, 1).Draw(t, "started"))
@@ -399,7 +410,7 @@ func pgHostile(client bool) func(t *rapid.T, seeds [][]byte) []byte {
 				return append(out, tail...)
 			}
 		}
-		typ := rapid.SampledFrom([]byte("QPBEDSXCdcfHFpRTtZ1n2sIKNA")).Draw(t, "type")
+		typ := rapid.SampledFrom([]byte("QQQPPBBEEDDSXCdcfHFpRTTttZ1n2sIKNA")).Draw(t, "type")
 		// optionally after a valid first packet
 		if rapid.Bool().Draw(t, "second") && len(seeds) > 0 && !client {
 			out = append(out, rapid.SampledFrom(seeds).Draw(t, "first")...)
